@@ -838,7 +838,13 @@ func (s *Script) appendOp(o *op, left, right any) (pb *precBuf) {
 		pb.buf = append(pb.buf, ' ')
 		pb.buf = append(pb.buf, o.name...)
 		pb.buf = append(pb.buf, ' ')
-		pb.buf = s.appendValue(pb.buf, right, o.prec)
+		// Operators of one precedence group to the left when parsed so
+		// a right operand of the same precedence needs parentheses.
+		rp := o.prec
+		if 0 < rp {
+			rp--
+		}
+		pb.buf = s.appendValue(pb.buf, right, rp)
 	}
 	return
 }
